@@ -20,6 +20,76 @@ pub fn to_array(pts: &[Vec<f64>], dim: usize) -> Option<Array2<f64>> {
     Array2::from_shape_vec((pts.len(), dim), flat).ok()
 }
 
+/// How the hyper-parameters are put together: which constructor, then a sequence of setter calls.
+/// Whatever the sequence, the values in force at the end are the case's (`tol`, the index under
+/// test): if the last tolerance / index set by the recipe is a decoy, the real one is set after it.
+#[derive(Debug, Clone, Copy)]
+pub struct Build<'a> {
+    /// 0 = `params_with(min_points, dist, index)`, 1 = `params_with(min_points, dist, decoy index)`,
+    /// 2 = `params(min_points)` (defaults L2 / KdTree; used for L2 only, otherwise as 1)
+    pub ctor: u8,
+    /// 0 = tolerance(real), 1 = tolerance(decoy), 2 = nn_algo(real), 3 = nn_algo(decoy), 4 = dist_fn(same metric)
+    pub steps: &'a [u8],
+}
+
+pub const PLAIN: Build<'static> = Build { ctor: 0, steps: &[] };
+
+fn decoy_index(nn: &CommonNearestNeighbour) -> CommonNearestNeighbour {
+    match nn {
+        CommonNearestNeighbour::LinearSearch => CommonNearestNeighbour::KdTree,
+        CommonNearestNeighbour::KdTree => CommonNearestNeighbour::BallTree,
+        _ => CommonNearestNeighbour::LinearSearch,
+    }
+}
+
+fn decoy_tolerance(tol: f64) -> f64 {
+    tol * 3.0 + 1.0
+}
+
+/// Runs `steps` through the setters `t` (tolerance), `n` (nn_algo), `d` (dist_fn) and finishes with
+/// the real tolerance / index where the recipe left a decoy (or never set the tolerance).
+fn apply_steps<P>(
+    mut p: P,
+    b: Build,
+    ctor_index_is_real: bool,
+    tol: f64,
+    nn: &CommonNearestNeighbour,
+    t: impl Fn(P, f64) -> P,
+    n: impl Fn(P, CommonNearestNeighbour) -> P,
+    d: impl Fn(P) -> P,
+) -> P {
+    let mut tol_real = false;
+    let mut nn_real = ctor_index_is_real;
+    for &s in b.steps.iter().take(8) {
+        match s {
+            0 => {
+                p = t(p, tol);
+                tol_real = true;
+            }
+            1 => {
+                p = t(p, decoy_tolerance(tol));
+                tol_real = false;
+            }
+            2 => {
+                p = n(p, nn.clone());
+                nn_real = true;
+            }
+            3 => {
+                p = n(p, decoy_index(nn));
+                nn_real = false;
+            }
+            _ => p = d(p),
+        }
+    }
+    if !nn_real {
+        p = n(p, nn.clone());
+    }
+    if !tol_real {
+        p = t(p, tol);
+    }
+    p
+}
+
 fn dbscan_with<D: Distance<f64>>(
     x: &Array2<f64>,
     min_points: usize,
@@ -27,8 +97,15 @@ fn dbscan_with<D: Distance<f64>>(
     d: D,
     nn: CommonNearestNeighbour,
     through_dataset: bool,
+    b: Build,
+    default_ctor: Option<linfa_clustering::DbscanParams<f64, D, CommonNearestNeighbour>>,
 ) -> Result<Vec<Option<usize>>, String> {
-    let params = Dbscan::params_with::<f64, D, CommonNearestNeighbour>(min_points, d, nn).tolerance(tol);
+    let (start, real) = match (b.ctor, default_ctor) {
+        (2, Some(p)) => (p, matches!(nn, CommonNearestNeighbour::KdTree)),
+        (0, _) => (Dbscan::params_with::<f64, D, CommonNearestNeighbour>(min_points, d.clone(), nn.clone()), true),
+        _ => (Dbscan::params_with::<f64, D, CommonNearestNeighbour>(min_points, d.clone(), decoy_index(&nn)), false),
+    };
+    let params = apply_steps(start, b, real, tol, &nn, |p, v| p.tolerance(v), |p, i| p.nn_algo(i), |p| p.dist_fn(d.clone()));
     if through_dataset {
         let ds = DatasetBase::from(x.clone());
         let out: Result<DatasetBase<Array2<f64>, ndarray::Array1<Option<usize>>>, _> = params.transform(ds);
@@ -46,11 +123,12 @@ pub fn dbscan(
     m: Metric,
     nn: CommonNearestNeighbour,
     through_dataset: bool,
+    b: Build,
 ) -> Result<Vec<Option<usize>>, String> {
     match m {
-        Metric::L1 => dbscan_with(x, min_points, tol, L1Dist, nn, through_dataset),
-        Metric::L2 => dbscan_with(x, min_points, tol, L2Dist, nn, through_dataset),
-        Metric::LInf => dbscan_with(x, min_points, tol, LInfDist, nn, through_dataset),
+        Metric::L1 => dbscan_with(x, min_points, tol, L1Dist, nn, through_dataset, b, None),
+        Metric::L2 => dbscan_with(x, min_points, tol, L2Dist, nn, through_dataset, b, Some(Dbscan::params::<f64>(min_points))),
+        Metric::LInf => dbscan_with(x, min_points, tol, LInfDist, nn, through_dataset, b, None),
     }
 }
 
@@ -60,8 +138,15 @@ fn optics_with<D: Distance<f64>>(
     tol: f64,
     d: D,
     nn: CommonNearestNeighbour,
+    b: Build,
+    default_ctor: Option<linfa_clustering::OpticsParams<f64, D, CommonNearestNeighbour>>,
 ) -> Result<Vec<OSample>, String> {
-    let params = Optics::params_with::<f64, D, CommonNearestNeighbour>(min_points, d, nn).tolerance(tol);
+    let (start, real) = match (b.ctor, default_ctor) {
+        (2, Some(p)) => (p, matches!(nn, CommonNearestNeighbour::KdTree)),
+        (0, _) => (Optics::params_with::<f64, D, CommonNearestNeighbour>(min_points, d.clone(), nn.clone()), true),
+        _ => (Optics::params_with::<f64, D, CommonNearestNeighbour>(min_points, d.clone(), decoy_index(&nn)), false),
+    };
+    let params = apply_steps(start, b, real, tol, &nn, |p, v| p.tolerance(v), |p, i| p.nn_algo(i), |p| p.dist_fn(d.clone()));
     let out: Result<linfa_clustering::OpticsAnalysis<f64>, _> = params.transform(x.view());
     out.map(|a| {
         a.iter()
@@ -71,11 +156,11 @@ fn optics_with<D: Distance<f64>>(
     .map_err(|e| e.to_string())
 }
 
-pub fn optics(x: &Array2<f64>, min_points: usize, tol: f64, m: Metric, nn: CommonNearestNeighbour) -> Result<Vec<OSample>, String> {
+pub fn optics(x: &Array2<f64>, min_points: usize, tol: f64, m: Metric, nn: CommonNearestNeighbour, b: Build) -> Result<Vec<OSample>, String> {
     match m {
-        Metric::L1 => optics_with(x, min_points, tol, L1Dist, nn),
-        Metric::L2 => optics_with(x, min_points, tol, L2Dist, nn),
-        Metric::LInf => optics_with(x, min_points, tol, LInfDist, nn),
+        Metric::L1 => optics_with(x, min_points, tol, L1Dist, nn, b, None),
+        Metric::L2 => optics_with(x, min_points, tol, L2Dist, nn, b, Some(Optics::params::<f64>(min_points))),
+        Metric::LInf => optics_with(x, min_points, tol, LInfDist, nn, b, None),
     }
 }
 
